@@ -172,6 +172,7 @@ pub fn report(
         "generated_tests_observed": res.tests.len(),
         "check_rounds": res.rounds,
         "crates": res.crates.iter().map(|(n, _)| n.clone()).collect::<Vec<_>>(),
+        "rejected_units_sample": units.iter().filter(|u| !res.verdicts[&u.id].accepted).take(40).map(|u| json!({"class": u.class, "decl": u.decl.lines().next().unwrap_or(""), "error": res.verdicts[&u.id].errors.first().map(|(c, m)| format!("{c} {m}")).unwrap_or_default()})).collect::<Vec<_>>(),
         "violations_known": known_hit.iter().map(|(k, v)| json!({"signature": k, "what": v.0, "units": v.1})).collect::<Vec<_>>(),
         "violations_new_signatures": seen.iter().collect::<Vec<_>>(),
         "build_s": res.build_s,
@@ -219,7 +220,7 @@ pub fn report(
 
 pub fn run_c08(env: &Env, tier: &str) -> i32 {
     let t0 = std::time::Instant::now();
-    let units = vmodel::cf::c08_units(env.seed);
+    let units = vmodel::cf::c08_units(env.seed, tier == "thorough");
     let res = match cf::verdicts(env, &env.work.join("gen/c08"), "c08", &units, false, true) {
         Ok(r) => r,
         Err(e) => {
@@ -258,16 +259,16 @@ pub fn run_c05(env: &Env, tier: &str) -> i32 {
 
 pub fn run_c15(env: &Env, tier: &str) -> i32 {
     let t0 = std::time::Instant::now();
-    let units = vmodel::cf::c15_units(env.seed);
+    let units = vmodel::cf::c15_units(env.seed, tier == "thorough");
     // metamorphic: the same units must also be accepted in std mode (verdict equality)
-    let std_res = match cf::verdicts(env, &env.work.join("gen/c15std"), "c15std", &units, false, false) {
+    let std_res = match cf::verdicts(env, &env.work.join("gen/c15std"), "c15std", &units, false, true) {
         Ok(r) => r,
         Err(e) => {
             eprintln!("INCONCLUSIVE: {e}");
             return 2;
         }
     };
-    let res = match cf::verdicts(env, &env.work.join("gen/c15"), "c15", &units, true, false) {
+    let res = match cf::verdicts(env, &env.work.join("gen/c15"), "c15", &units, true, true) {
         Ok(r) => r,
         Err(e) => {
             eprintln!("INCONCLUSIVE: {e}");
